@@ -125,6 +125,23 @@ pub fn gen_value(rng: &mut Prng, ty: &ResolvedType) -> Value {
         return Value::tuple(vals);
     }
     if let Some((elem, n)) = ty.as_array() {
+        if elem.as_integer() == Some(UIntType::U8) && rng.coin() {
+            // byte arrays: uniformly random bytes, or one repeated byte (00, ff, random)
+            let style = rng.below(4);
+            let fill = rng.below(256) as u8;
+            let vals: Vec<Value> = (0..n)
+                .map(|_| {
+                    let b = match style {
+                        0 => 0x00,
+                        1 => 0xff,
+                        2 => fill,
+                        _ => rng.below(256) as u8,
+                    };
+                    Value::from(UIntValue::U8(b))
+                })
+                .collect();
+            return Value::array(vals, elem.clone());
+        }
         let vals: Vec<Value> = (0..n).map(|_| gen_value(rng, elem)).collect();
         return Value::array(vals, elem.clone());
     }
